@@ -22,7 +22,7 @@ type symUniverse struct {
 	src      map[string]string // leaf files (they import base.proto only)
 	names    []string
 	base     string
-	planted  string // "", "name", "extension" or "package"
+	planted  string              // "", "name", "extension" or "package"
 	symbols  map[string][]string // full name -> defining files
 	extNums  map[int32][]string  // extension number (of base.Ext) -> defining files
 	dupFiles [2]string
